@@ -5,6 +5,7 @@ Per input: {"i", "ev":"start"} (flushed + fsync) ... {"i", "ev":"end", outcome, 
 """
 from __future__ import annotations
 
+import faulthandler
 import io
 import json
 import os
@@ -83,6 +84,8 @@ def main(batch_path: str, journal_path: str) -> int:
                 src = open(p, "rb")
             else:
                 src = io.BytesIO(data)
+            # per-input wall-clock watchdog: a hang ends THIS child (the journal shows which input was running)
+            faulthandler.dump_traceback_later(batch.get("per_input_timeout", 20), exit=True)
             rss0 = resource.getrusage(resource.RUSAGE_SELF).ru_maxrss
             steps.n = steps.rows = 0
             t0 = time.process_time()
@@ -106,6 +109,7 @@ def main(batch_path: str, journal_path: str) -> int:
                     src.close()
                 except Exception:  # noqa: BLE001
                     pass
+            faulthandler.cancel_dump_traceback_later()
             rec["cpu"] = round(time.process_time() - t0, 4)
             rec["steps"] = steps.n
             rec["rows"] = steps.rows
